@@ -33,11 +33,12 @@ CONSTANTS Labels,             \* goto label names
           MaxCalls,           \* bound on the number of front-end calls
           MaxBlocks,          \* bound on the number of blocks
           ApiLevel,           \* TRUE: raw API calls (mkblock/funclabel/funcjmp/funcjnz with arbitrary blocks) are enabled
+          Structured,         \* TRUE: the structured statements of stmt.c (if/else, while, do, for, switch, break, continue)
           DevUndefinedGoto,
           DevDuplicateLabel,
           EmitCases           \* TRUE: print every finished behaviour as a VCASE (flow A)
 
-VARIABLES s,       \* the heap: [blk, nxt, end, made, placed, gotos, defined, relabel]
+VARIABLES s,       \* the heap: [blk, nxt, end, made, placed, gotos, defined, relabel] + stk, the open statements of the parser
           hist,    \* the calls made so far
           phase    \* "build" | "emitted"
 vars == <<s, hist, phase>>
@@ -71,7 +72,7 @@ funcgoto(h, l) ==                   \* mapput(&f->gotos, name); if (!g) g->label
 (* mkfunc: f->start = f->end = mkblock("start"); ...; funclabel(f, mkblock("body")) *)
 Heap0 ==
   LET h0 == [blk |-> <<NoJump>>, nxt |-> <<0>>, end |-> 1, made |-> {1}, placed |-> {1},
-             gotos |-> <<>>, defined |-> {}, relabel |-> FALSE]
+             gotos |-> <<>>, defined |-> {}, relabel |-> FALSE, stk |-> <<>>]
   IN funclabel(mkblock(h0), 2)
 
 (* emitfunc: implicit return, then for (b = f->start; b; b = b->next) *)
@@ -102,6 +103,64 @@ StIfGoto(l) ==                                                             \* if
       h5 == funcjmp(h4, h4.gotos[l])
   IN funclabel(h5, t + 1)
 
+(* ------------------------------------------------------------------------ *)
+(* stmt.c: structured statements.  stk is the recursion of stmt(): one entry *)
+(* per open statement with the blocks it still has to place:                 *)
+(*   a = continue target / else-or-join block / case block of a switch       *)
+(*   b = break target, c = loop body or condition block, d = default block   *)
+Ent(k, a, b, c, d) == [k |-> k, a |-> a, b |-> b, c |-> c, d |-> d]
+Top(h)     == h.stk[Len(h.stk)]
+Push(h, e) == [h EXCEPT !.stk = Append(@, e)]
+Pop(h)     == [h EXCEPT !.stk = SubSeq(@, 1, Len(@) - 1)]
+Innermost(h, kinds) == LET js == {j \in DOMAIN h.stk : h.stk[j].k \in kinds} IN IF js = {} THEN 0 ELSE CHOOSE j \in js : \A i \in js : i <= j
+Loops == {"while", "do", "for"}
+
+OpenIf ==                                   \* if (x) {
+  LET h1 == funcinst(s)
+      t  == NewId(h1)
+      h2 == mkblock(mkblock(h1))            \* if_true = t, if_false = t + 1
+  IN Push(funclabel(funcjnz(h2, t, t + 1), t), Ent("if", t + 1, 0, 0, 0))
+ElseOf ==                                   \* } else {
+  LET j  == NewId(s)
+      h1 == funclabel(funcjmp(mkblock(s), j), Top(s).a)     \* if_join = j; funcjmp(join); funclabel(if_false)
+  IN Push(Pop(h1), Ent("else", j, 0, 0, 0))
+OpenWhile ==                                \* while (x) {
+  LET c  == NewId(s)                        \* while_cond = c, while_body = c + 1, while_join = c + 2
+      h1 == funcinst(funclabel(mkblock(mkblock(mkblock(s))), c))
+  IN Push(funclabel(funcjnz(h1, c + 1, c + 2), c + 1), Ent("while", c, c + 2, 0, 0))
+OpenDo ==                                   \* do {
+  LET c == NewId(s)                         \* do_body = c, do_cond = c + 1, do_join = c + 2
+  IN Push(funclabel(mkblock(mkblock(mkblock(s))), c), Ent("do", c + 1, c + 2, c, 0))
+OpenFor(withcond) ==                        \* for (;x;) {   /   for (;;) {
+  LET c  == NewId(s)                        \* for_cond = c, for_body = c + 1, for_cont = c + 2, for_join = c + 3
+      h1 == funclabel(mkblock(mkblock(mkblock(mkblock(s)))), c)
+      h2 == IF withcond THEN funcjnz(funcinst(h1), c + 1, c + 3) ELSE h1
+  IN Push(funclabel(h2, c + 1), Ent("for", c + 2, c + 3, c, 0))
+OpenSwitch ==                               \* switch (x) {
+  LET c  == NewId(s)                        \* switch_cond = c, switch_join = c + 1
+      h1 == funcinst(mkblock(mkblock(s)))   \* v = funcexpr(e) after the two mkblock calls
+  IN Push(funcjmp(h1, c), Ent("switch", 0, c + 1, c, 0))
+CaseOf(i) ==                                \* case 1:
+  LET b == NewId(s) IN [funclabel(mkblock(s), b) EXCEPT !.stk[i].a = b]
+DefaultOf(i) ==                             \* default:
+  LET b == NewId(s) IN [funclabel(mkblock(s), b) EXCEPT !.stk[i].d = b]
+casesearch(h, e) ==                         \* funcswitch: one comparison ladder for the single case, else jump to default
+  LET deflt == IF e.d # 0 THEN e.d ELSE e.b
+  IN IF e.a = 0 THEN funcjmp(h, deflt)
+     ELSE LET n  == NewId(h)                \* switch_ne = n, switch_lt = n + 1, switch_gt = n + 2
+              h1 == funclabel(funcjnz(funcinst(mkblock(mkblock(mkblock(h)))), e.a, n), n)
+              h2 == funclabel(funcjnz(funcinst(h1), n + 1, n + 2), n + 1)
+          IN funcjmp(funclabel(funcjmp(h2, deflt), n + 2), deflt)
+CloseOf ==                                  \* }      (} while (x); for do)
+  LET e == Top(s)
+      h == Pop(s)
+  IN CASE e.k = "if"     -> funclabel(h, e.a)
+       [] e.k = "else"   -> funclabel(h, e.a)
+       [] e.k = "while"  -> funclabel(funcjmp(h, e.a), e.b)
+       [] e.k = "do"     -> funclabel(funcjnz(funcinst(funclabel(h, e.a)), e.c, e.b), e.b)
+       [] e.k = "for"    -> funclabel(funcjmp(funclabel(h, e.a), e.c), e.b)
+       [] e.k = "switch" -> funclabel(casesearch(funclabel(funcjmp(h, e.b), e.c), e), e.b)
+
 Fits(h) == Len(h.blk) <= MaxBlocks
 
 Call(name, arg, h) ==
@@ -120,6 +179,20 @@ Stmt ==
   \/ \E l \in Labels : (DevDuplicateLabel \/ l \notin s.defined) /\ Call("label", l, StLabel(l))
   \/ \E l \in Labels : Call("ifgoto", l, StIfGoto(l))
 
+Struct ==
+  /\ Structured
+  /\ \/ Call("if", "", OpenIf)
+     \/ s.stk # <<>> /\ Top(s).k = "if" /\ Call("else", "", ElseOf)
+     \/ Call("while", "", OpenWhile)
+     \/ Call("do", "", OpenDo)
+     \/ \E c \in BOOLEAN : Call("for", IF c THEN "x" ELSE "", OpenFor(c))
+     \/ Call("switch", "", OpenSwitch)
+     \/ LET i == Innermost(s, {"switch"}) IN i # 0 /\ s.stk[i].a = 0 /\ Call("case", "", CaseOf(i))
+     \/ LET i == Innermost(s, {"switch"}) IN i # 0 /\ s.stk[i].d = 0 /\ Call("default", "", DefaultOf(i))
+     \/ LET i == Innermost(s, Loops \cup {"switch"}) IN i # 0 /\ Call("break", "", funcjmp(s, s.stk[i].b))
+     \/ LET i == Innermost(s, Loops) IN i # 0 /\ Call("continue", "", funcjmp(s, s.stk[i].a))
+     \/ s.stk # <<>> /\ Call("close", Top(s).k, CloseOf)
+
 (* raw API calls with arbitrary (created) blocks: the structured statements of stmt.c are particular *)
 (* sequences of these, so an invariant proved here holds for all of them                             *)
 Api ==
@@ -131,6 +204,7 @@ Api ==
 
 EmitFunc ==
   /\ phase = "build"
+  /\ s.stk = <<>>                                                      \* the parser is back at the function body
   /\ (s.made \ s.placed) \subseteq GotoBlocks(s)                        \* K2
   /\ DevUndefinedGoto \/ DOMAIN s.gotos \subseteq s.defined              \* K3
   /\ s' = funcret(s)                                                    \* if (f->end->jump.kind == JUMP_NONE) funcret(f, v)
@@ -138,7 +212,7 @@ EmitFunc ==
   /\ UNCHANGED hist
 
 Init == s = Heap0 /\ hist = <<>> /\ phase = "build"
-Next == Stmt \/ Api \/ EmitFunc
+Next == Stmt \/ Struct \/ Api \/ EmitFunc
 Spec == Init /\ [][Next]_vars
 
 (* ------------------------------------------------------------------------ *)
